@@ -1,7 +1,7 @@
 #!/bin/bash
 # usage: mutant_batch.sh <dir-or-patches...> — apply each breaking mutant, run ALL checks, list the ones that report it
 REPO=${REPO:-/repo}; export VERIF_REPO=$REPO
-cd /verif
+cd ${VDIR:-/verif}
 FILES=(); for a in "$@"; do if [ -d "$a" ]; then FILES+=("$a"/*.diff); else FILES+=("$a"); fi; done
 IDS=$(ls rules | sed -n 's/^c\([0-9][0-9]\)\.py$/C\1/p')
 for P in "${FILES[@]}"; do
